@@ -573,7 +573,7 @@ impl rand::RngCore for TapeRng {
 // Recording runtime
 // ---------------------------------------------------------------------------
 
-pub const PKT: usize = 40;
+pub const PKT: usize = 36;
 pub const NS: usize = 4;
 pub const NT: usize = 6;
 pub const NN: usize = 6;
@@ -737,7 +737,15 @@ impl Runtime<Id> for LogRt {
             let s = &mut self.sent[self.ns];
             s.dst = to;
             s.len = data.len();
-            s.data[..data.len()].copy_from_slice(data);
+            // concrete indices only (a symbolic-length memcpy / symbolic index into
+            // the log would drag CBMC's array theory in)
+            let mut i = 0;
+            while i < PKT {
+                if i < data.len() {
+                    s.data[i] = data[i];
+                }
+                i += 1;
+            }
             self.ns += 1;
             self.ord(0);
         } else {
@@ -809,7 +817,13 @@ impl BroadcastHandler<Id> for LogHandler {
     fn receive_item(&mut self, data: &[u8], sender: Option<&Id>) -> Result<Option<BKey>, CodecErr> {
         if self.n < HLOG && data.len() <= ITEM {
             let mut b = [0u8; ITEM];
-            b[..data.len()].copy_from_slice(data);
+            let mut i = 0;
+            while i < ITEM {
+                if i < data.len() {
+                    b[i] = data[i];
+                }
+                i += 1;
+            }
             self.items[self.n] = (b, data.len(), sender.copied());
             self.n += 1;
         } else {
